@@ -1,5 +1,5 @@
 """Sidecar contracts; importing this package registers all of them."""
-from . import basic_block, scfg_queries, scfg_edit, namegen, bytecode, transforms, hierarchy  # noqa
+from . import basic_block, scfg_queries, scfg_edit, namegen, bytecode, transforms, hierarchy, ast_blocks  # noqa
 
 # ---- which property's check re-discharges which function (a property's proved part rests on these contracts)
 from pyvc.contract import REGISTRY as _R
